@@ -181,6 +181,9 @@ type Env struct {
 	ST  *bmc.V2SessionlessTransport
 	// Filter, when set, may replace the BMC's reply to the n-th transmission.
 	Filter func(n int, req, reply []byte) ([]byte, error)
+	// PreFilter, when set, may rewrite a request before the BMC sees it (a
+	// man in the middle).
+	PreFilter func(n int, req []byte) []byte
 }
 
 // stdSuites are the nine authentication x integrity combinations with AES.
@@ -207,6 +210,9 @@ func libSuite(s refbmc.Suite) ipmi.CipherSuite {
 func NewEnv(cfg refbmc.Config, mode memtr.Delivery) *Env {
 	e := &Env{BMC: refbmc.New(cfg)}
 	e.T = memtr.New(func(n int, req []byte) ([]byte, error) {
+		if e.PreFilter != nil {
+			req = e.PreFilter(n, req)
+		}
 		rsp := e.BMC.Handle(req)
 		if e.Filter != nil {
 			return e.Filter(n, req, rsp)
@@ -214,7 +220,7 @@ func NewEnv(cfg refbmc.Config, mode memtr.Delivery) *Env {
 		return rsp, nil
 	})
 	e.T.Mode = mode
-	e.ST = bmc.VerifNewV2SessionlessTransport(e.T, 50*time.Millisecond, &backoff.ZeroBackOff{})
+	e.ST = bmc.VerifNewV2SessionlessTransport(e.T, 10*time.Second, &backoff.ZeroBackOff{})
 	return e
 }
 
